@@ -140,15 +140,30 @@ def make_dirs(pys, case):
         os.makedirs(os.path.join(pys, slot), exist_ok=True)
 
 
-def write_files(pys, case, slotmap, order):
-    """(Over)write the requirements.txt of every location of the case; each location always has a file."""
+def write_files(pys, case, slotmap, order, written):
+    """(Over)write the requirements.txt of every location of the case; each location always has a file.
+    `written` remembers what each file holds so that unchanged files are not rewritten."""
     eol = case.get("eol", 1)
     for slot, texts in files_of(case, slotmap, order).items():
-        d = os.path.join(pys, slot)
         sep = "\r\n" if eol == 2 else "\n"
         body = sep.join(texts) + (sep if eol and texts else "")
-        with open(os.path.join(d, "requirements.txt"), "w", encoding="utf-8", newline="") as fh:
+        if written.get(slot) == body:
+            continue
+        with open(os.path.join(pys, slot, "requirements.txt"), "w", encoding="utf-8", newline="") as fh:
             fh.write(body)
+        written[slot] = body
+
+
+def temp_config_dir():
+    """A fresh config directory outside /repo and /verif; on a memory file system when there is one (the check
+    rewrites small files thousands of times) unless TMPDIR says otherwise."""
+    base = None
+    if not os.environ.get("TMPDIR") and os.path.isdir("/dev/shm") and os.access("/dev/shm", os.W_OK | os.X_OK):
+        base = "/dev/shm"
+    cfg = tempfile.mkdtemp(prefix="verif-c20-", dir=base)
+    real = os.path.realpath(cfg)
+    assert not real.startswith(("/repo/", "/verif/", os.path.realpath(core.REPO) + "/", core.VERIF + "/")), cfg
+    return cfg
 
 
 def processing_order(pys, case, slotmap):
@@ -415,8 +430,7 @@ async def execute(case, hass):
                 env[r] = LATEST
 
     arrs, exhaustive = arrangements(case)
-    cfg = tempfile.mkdtemp(prefix="verif-c20-")
-    assert not cfg.startswith(("/repo", "/verif"))
+    cfg = temp_config_dir()
     pys = os.path.join(cfg, "pyscript")
     resolutions, orders, runs = [], [], []
     try:
@@ -424,8 +438,9 @@ async def execute(case, hass):
             req, "async_process_requirements", side_effect=fake_installer
         ):
             make_dirs(pys, case)
+            written = {}
             for slotmap, order in arrs[1:] + arrs[:1]:  # the case as written last: its files stay for the install step
-                write_files(pys, case, slotmap, order)
+                write_files(pys, case, slotmap, order, written)
                 orders.append(processing_order(pys, case, slotmap))
                 try:
                     resolutions.append(canon_resolution(req.process_all_requirements(pys, REQUIREMENTS_PATHS, REQUIREMENTS_FILE)))
